@@ -36,10 +36,15 @@ def oneline(value: object) -> str:
 
     Control characters are escaped rather than dropped, so what the peer sent is still
     visible to whoever is reading, and still only one line.
+
+    So is everything outside ASCII: Processes.write() encodes each event as ASCII, and a
+    hostname of `café` (or any invalid UTF-8, which decodes to U+FFFD) raised
+    UnicodeEncodeError there, out of the reactor's read loop, and reset the session.
     """
     text = str(value)
     return ''.join(
-        character if character.isprintable() or character == ' ' else repr(character)[1:-1] for character in text
+        character if character.isascii() and (character.isprintable() or character == ' ') else ascii(character)[1:-1]
+        for character in text
     )
 
 
